@@ -541,7 +541,7 @@ func runC20(o *Out, rng *Rng, tier string, replay string) {
 		subOuts[k] = &Out{counter: map[string]int{}}
 		sem <- struct{}{}
 		go func(k int, sp *simSpec) {
-			runSim(subOuts[k], sp, 240*time.Second)
+			runSim(subOuts[k], sp, 120*time.Second)
 			<-sem
 			doneCh <- struct{}{}
 		}(k, sp)
